@@ -48,7 +48,7 @@ Proof.
   intros H; inv H.
   destruct (node_post_last _ _ _ _ _ _ _ Hp Epo) as [ev [L [Hev Hr]]].
   assert (E03 : ext s s3) by (eapply ext_trans; [|exact E23]; eapply ext_trans; eauto).
-  destruct E03 as [[evs Hl] _].
+  destruct E03 as [evs [Hl _]].
   exists evs, ev, a0. rewrite L, Hl, app_assoc. auto.
 Qed.
 
@@ -75,7 +75,7 @@ Proof.
   - destruct (bnode_post o c n s1 [] []) as [s2 [a0|e]] eqn:Epo; [|discriminate].
     intros H; inv H.
     destruct (bnode_post_last _ _ _ _ _ _ _ Hp Epo) as [ev [L [Hev Hr]]].
-    destruct Ep as [[evs Hl] _].
+    destruct Ep as [evs [Hl _]].
     exists evs, ev, a0. rewrite L, Hl, app_assoc. auto.
   - match goal with |- context [let '(_, _) := ?X in _] => destruct X as [s2 results] eqn:E2 end.
     assert (E12 : ext s1 s2).
@@ -84,7 +84,7 @@ Proof.
     intros H; inv H.
     destruct (bnode_post_last _ _ _ _ _ _ _ Hp Epo) as [ev [L [Hev Hr]]].
     assert (E02 : ext s s2) by (eapply ext_trans; eauto).
-    destruct E02 as [[evs Hl] _].
+    destruct E02 as [evs [Hl _]].
     exists evs, ev, a0. rewrite L, Hl, app_assoc. auto.
 Qed.
 
